@@ -44,6 +44,8 @@ def gen_file(rng, small=False):
     data, meta = e.build(rng, pad=rng.choice([0, 0, 0, 8, 64]))
     if rng.random() < 0.2:
         data = relink(rng, data, meta)
+    if rng.random() < 0.12:
+        data = odd_shstrtab(rng, data, meta)
     if rng.random() < 0.35:
         data = filegen.corrupt(rng, data, meta)
     return data, meta, info
@@ -223,13 +225,16 @@ def xnum_variants(rng):
         d2 = elfgen.patch(data, meta, "ehdr", "e_phnum", 0xffff)
         d2 = d2 + bytes(4096)                  # room for the e_phoff-many entries the pseudo header declares
         out.append((d2, meta))
-    e = elfgen.Elf(rng.choice((32, 64)), rng.random() < 0.5)
+    e = elfgen.Elf(rng.choice((32, 64, 64)), rng.random() < 0.5)
     e.seg(elfgen.PT["LOAD"], off=0, filesz=8, align=1)
     e.seg(elfgen.PT["NOTE"], off=0, filesz=0, align=4)
     e.add(b".t", 1, b"abc")
     data, meta = e.build(rng)
     d3 = elfgen.patch(elfgen.patch(data, meta, "ehdr", "e_shnum", 0), meta, "ehdr", "e_phnum", 0xffff)
-    for size, info_ in ((0, meta["nph"]), (0, 1), (meta["nsh"], meta["nph"])):
+    sizes = [(0, meta["nph"]), (0, 1), (meta["nsh"], meta["nph"])]
+    if meta["cl"] == 64:          # a count that only fits in 64 bits: both parsers must reject it alike
+        sizes += [(2**32 + meta["nsh"], meta["nph"]), (2**32, meta["nph"])]
+    for size, info_ in sizes:
         d4 = elfgen.patch(elfgen.patch(d3, meta, "shdr", "sh_size", size, 0), meta, "shdr", "sh_info", info_, 0)
         out.append((d4, meta))
     return out
@@ -252,3 +257,21 @@ def dup_version_sections(rng, e, info):
     else:
         e.add(b".gnu.version2", elfgen.SHT["GNU_VERSYM"], b"".join(enc(e.little, 2, rng.choice([1, 2, 3])) for _ in range(info["nversyms"])), link=0, entsize=2, align=2, flags=2)
     return True
+
+
+def odd_shstrtab(rng, data, meta):
+    """the section-name string table's own header says SHT_NOBITS (while the bytes are there), or carries SHF_COMPRESSED,
+    or is any other type: the name table is read from the header's byte range whatever the type says"""
+    o = fileq.py_open("any", data)
+    hs = fileq.py_shdrs(o, data) if o else None
+    if not hs:
+        return data
+    sx = o["eh"]["e_shstrndx"]
+    if not (0 < sx < len(hs)) or not hs[sx]:
+        return data
+    r = rng.random()
+    if r < 0.5:
+        return elfgen.patch(data, meta, "shdr", "sh_type", 8, sx)
+    if r < 0.75:
+        return elfgen.patch(data, meta, "shdr", "sh_flags", hs[sx]["sh_flags"] | 0x800, sx)
+    return elfgen.patch(data, meta, "shdr", "sh_type", rng.choice([0, 1, 2, 7]), sx)
